@@ -92,7 +92,9 @@ func run(p *analysis.Pass) (interface{}, error) {
 }
 
 // parseFilePrefixes parses the comma-separated list of file prefixes, converts them to absolute
-// file paths, and returns them as a slice.
+// file paths, and returns them as a slice. A prefix written with a trailing path separator keeps
+// it: it names a directory and matches only the files below that directory, not the files below a
+// sibling whose name merely starts with the same characters ("cmd/" does not match "cmdutil/x.go").
 func parseFilePrefixes(s string) ([]string, error) {
 	if s == "" {
 		return nil, nil
@@ -110,9 +112,18 @@ func parseFilePrefixes(s string) ([]string, error) {
 		if err != nil {
 			return nil, fmt.Errorf("convert %q to absolute path: %w", list[i], err)
 		}
+		// filepath.Abs cleans the path, which drops a trailing separator.
+		if endsWithSeparator(list[i]) && !endsWithSeparator(p) {
+			p += string(filepath.Separator)
+		}
 		list[i] = p
 	}
 	return list, nil
+}
+
+// endsWithSeparator returns true if the last character of s is a path separator.
+func endsWithSeparator(s string) bool {
+	return len(s) > 0 && os.IsPathSeparator(s[len(s)-1])
 }
 
 // splitFilePrefixes splits the comma-separated list s into its elements. The name of the working
@@ -158,6 +169,11 @@ func main() {
 	if err != nil {
 		fmt.Fprintf(os.Stderr, "failed to get working directory: %v\n", err)
 		os.Exit(1)
+	}
+	// The default is the working directory as a directory, i.e., with a trailing separator, such
+	// that only the files within it match (and not the ones in, say, "<wd>util/" or "<wd>-lib/").
+	if !endsWithSeparator(wd) {
+		wd += string(filepath.Separator)
 	}
 	flag.StringVar(&_includeErrorsInFiles, "include-errors-in-files", wd, "A comma-separated list of file prefixes to report errors, default is current working directory.")
 	flag.StringVar(&_excludeErrorsInFiles, "exclude-errors-in-files", "", "A comma-separated list of file prefixes to exclude from error reporting. This takes precedence over include-errors-in-files.")
